@@ -206,6 +206,7 @@ func main() {
 	writeIfChanged(filepath.Join(outDir, "Consts.v"), b.String())
 	writeIfChanged(filepath.Join(outDir, "Facts.v"), facts(pkgs))
 	writeIfChanged(filepath.Join(outDir, "GoFuncs.v"), go2coq(pkgs))
+	writeIfChanged(filepath.Join(outDir, "LockFacts.v"), lockFacts(pkgs))
 }
 
 func writeIfChanged(path, txt string) {
